@@ -10,6 +10,8 @@ Ops: node (inject state) | fresh (restart: new instance, optionally other code) 
 setver | call (a real `obj.f(x)`; the command it produces is appended to the log) | dump | compact | load.
 Dump modes: in memory, file (`fullDumpFile`, no fork), user serializer (enabled version next to the internal data, repair D22).
 
+Registered for C01 as well (same families; signatures C01_SIGS: a node caught up by snapshot / dump that does not know the
+enabled version, or that applies entries although the cluster is on a version its code lacks).
 Registered for C09 as well (`ctx.pid == "C09"`): only the dump / load / install families run (directed restore cases with
 the code ahead of the enabled version, pair scripts with dumps) and only the signatures about the restored enabled
 version / name table are reported (C09: a snapshot restores the object state "enabled code version included").
@@ -30,10 +32,11 @@ import json
 import os
 import random
 import re
+import traceback
 
 from harness.corr import versions_lib as L
 
-PROPERTIES = ["C17", "C09"]
+PROPERTIES = ["C17", "C09", "C01"]
 ORDER = 45
 
 # unknown function ids: since the D9 repair the KeyError of `_idToMethod[funcID]` is caught in `__doApplyCommand`,
@@ -47,6 +50,11 @@ SIG_TABLE = "syncobj.loadDumpFile:call-not-newest-version-le-enabled"
 SIG_LOST = "syncobj.loadDumpFile:enabled-version-not-restored"
 SIG_LOST_USER = "syncobj.loadDumpFile:enabled-version-not-restored-with-user-serializer"
 RESTORE_SIGS = (SIG_TABLE, SIG_LOST, SIG_LOST_USER)     # what the C09 plan reports (restored enabled version / name table)
+SIG_REFUSED = "syncobj.doApplyCommand:supported-version-refused"
+# what the C01 plan reports: a node caught up by snapshot / dump does not know the enabled version, or applies entries
+# although the cluster is on a version its code lacks (its state is then not the execution of the prefix it reports)
+C01_SIGS = (SIG_LOST, SIG_LOST_USER, SIG_BLOCKED, SIG_AFTER)
+PLAN_SIGS = {"C09": RESTORE_SIGS, "C01": C01_SIGS}
 SIG_TABLE_APPLY = "syncobj.doApplyCommand:call-not-newest-version-le-enabled"
 SIG_PAIR = "syncobj.applyLogEntries:old-and-new-code-run-different-method"
 SIG_GUARD = "syncobj.setCodeVersion:unsupported-or-lower-version-accepted"
@@ -73,6 +81,10 @@ class Runner(object):
         self.all_built = []
         self.have_dump = False
         self.mem_dump = None
+        self.dump_enabled = None         # getCodeVersion() of the node that took the dump, at that moment
+        self.dump_last = None            # index of the dump's last entry
+        self.loaded_enabled = None       # enabled version of the dump this instance installed (None: none installed)
+        self.error = None
         self.tmp = None
         self.pair_trace = {}             # specname -> {idx: (obj, orig, ver)}
         self.after_load = False
@@ -109,6 +121,7 @@ class Runner(object):
         self.all_built.append(b)
         self.b, self.cur = b, name
         self.ran_since_reset = []
+        self.loaded_enabled = None
         return b
 
     def close(self):
@@ -191,7 +204,13 @@ class Runner(object):
         spec = self.specs[self.cur]
         sv = _spec_self_ver(spec)
         la0, commit, enabled0 = before["lastApplied"], before["commit"], before["enabled"]
+        if self.loaded_enabled is not None:
+            enabled0 = max(enabled0, self.loaded_enabled)    # the version of the snapshot position, whatever the node believes
         ran = [e for e in ev if e[0] == "ran"]
+        for e in ev:
+            if e[0] == "wrongVer" and e[2] <= sv:
+                self._violation(SIG_REFUSED, "VERSION %d refused (WrongVer, self version reported %d) although the code has "
+                                "methods up to version %d (object and consumers)" % (e[2], e[1], sv), None)
         if enabled0 > sv:
             self.cov["m3_checked"] += 1
             if ran or self.b.obj._SyncObj__raftLastApplied != la0:
@@ -289,6 +308,10 @@ class Runner(object):
                     raise
             self.cov["setver_" + r[0]] += 1
             # property: requests to enable an unsupported or lower version are rejected
+            if r[0] != "queued" and b.obj.getCodeVersion() <= v <= _spec_self_ver(spec):
+                self._violation("syncobj.setCodeVersion:supported-version-rejected",
+                                "setCodeVersion(%d) rejected (%r): the code has methods up to version %d, enabled is %d"
+                                % (v, r, _spec_self_ver(spec), b.obj.getCodeVersion()), None)
             if r[0] == "queued" and (v > _spec_self_ver(spec) or v < b.obj.getCodeVersion()):
                 self._violation(SIG_GUARD, "setCodeVersion(%d) accepted: code has up to %d, enabled is %d"
                                 % (v, _spec_self_ver(spec), b.obj.getCodeVersion()), None)
@@ -342,6 +365,8 @@ class Runner(object):
                 exp = {"enabled": en, "last": [L.dec_cmd(self.ns, data[1][0]), data[1][1], data[1][2]],
                        "prev": [L.dec_cmd(self.ns, data[2][0]), data[2][1], data[2][2]]}
                 self.have_dump = True
+                self.dump_enabled = b.obj.getCodeVersion()
+                self.dump_last = exp["last"][1]
             self.cov["dump_made" if made else "dump_none"] += 1
             self._emit({"op": "dump"}, "dump", exp)
             return made
@@ -363,7 +388,20 @@ class Runner(object):
                 # coverage only: did the received-snapshot path install or keep log and state?
                 self.cov["load_clear_kept" if (post["log"] == pre["log"] and post["lastApplied"] == pre["lastApplied"])
                          else "load_clear_installed"] += 1
-            assert ("loadFailed",) not in b.rec, "load failed: %s" % getattr(self.tok[1], "last_exc", "")[-600:]
+            if ("loadFailed",) in b.rec:
+                # the real code swallowed an exception in __loadDumpFile ('failed to load full dump'): judged by the
+                # monitors below and by the correspondence (the model has no such event), never a harness crash
+                self.cov["load_failed"] += 1
+                self.load_failure = getattr(self.tok[1], "last_exc", "")[-400:]
+            installed = pre["lastApplied"] < (self.dump_last or 0) and post["lastApplied"] == self.dump_last
+            if installed:
+                self.cov["load_installed"] += 1
+                self.loaded_enabled = self.dump_enabled
+                if b.obj.getCodeVersion() != self.dump_enabled:
+                    # C09/C01/C17: the snapshot carries the enabled code version of its position
+                    self._violation(SIG_LOST_USER if self.mode == "user" else SIG_LOST,
+                                    "dump taken at enabled version %r, after loading it (lastApplied %r -> %r) getCodeVersion() is %r"
+                                    % (self.dump_enabled, pre["lastApplied"], post["lastApplied"], b.obj.getCodeVersion()), None)
             self.ran_since_reset = []
             ev = L.canon_real_events(b, list(b.rec), self.arg2idx)
             del b.rec[:]
@@ -554,6 +592,9 @@ def _finish_pair(ctx, ns, specs, script, rng, mode, seed):
                 if tn[idx] != impl:
                     R._violation(SIG_PAIR, "entry %d runs %r on the new code and %r on the old code" % (idx, tn[idx], impl), None)
         return R
+    except Exception:
+        R.error = traceback.format_exc()[-1500:]
+        return R
     finally:
         R.close()
 
@@ -606,6 +647,10 @@ def _run_script(ctx, ns, specs, script, mode, seed):
     try:
         for o in script:
             R.op(o)
+    except Exception:
+        # an exception out of the real code path (or an injector that no longer fits): reported as a broken
+        # correspondence of this case; what the monitors saw up to here is kept
+        R.error = traceback.format_exc()[-1500:]
     finally:
         R.close()
     return R
@@ -713,7 +758,8 @@ def run(ctx):
     disagreements, violations, samples = [], [], []
     distinct = set()
     argc = [10000]
-    c09 = (ctx.pid == "C09")        # C09 plan: only the dump / load / install families, only the restore signatures
+    # C09 / C01 plans: only the dump / load / install families, only that property's signatures (PLAN_SIGS)
+    c09 = ctx.pid in PLAN_SIGS
     n_handler = 0 if c09 else ctx.scale(1500, 24000)
     n_pair = ctx.scale(70, 3000) if c09 else ctx.scale(500, 8000)
     cases = 0
@@ -750,24 +796,33 @@ def run(ctx):
 
     lines = []
     for R, *_ in runs:
-        lines.extend(R.lines)
+        if R.error is None:
+            lines.extend(R.lines)
     out = ctx.driver("versions", lines)
     pos = 0
     for R, specs, script, mode, seed, kind in runs:
-        part = out[pos:pos + len(R.lines)]
-        pos += len(R.lines)
+        if R.error is not None:
+            cov["case_raised"] += 1
+            if len(disagreements) < 3:
+                disagreements.append({"note": "exception while the case ran on the real code", "model": None, "impl": R.error,
+                                      "at": {"op": "?"}, "input": {"specs": _js(specs), "script": script, "mode": mode,
+                                                                   "seed": seed, "kind": kind}})
+            part = None
+        else:
+            part = out[pos:pos + len(R.lines)]
+            pos += len(R.lines)
         cov.update(R.cov)
         cov["mode_" + mode] += 1
         cov["kind_" + kind] += 1
         distinct.add(hashlib.sha1("\n".join(R.lines).encode()).hexdigest())
-        d = _compare(R, part, disagreements, cov)
+        d = _compare(R, part, disagreements, cov) if part is not None else None
         if c09 and d is not None and d["at"].get("op") not in ("load", "dump", "compact", "restart"):
             d = None                    # anything else is C17's business and reported there
         if d is not None and len(disagreements) < 3:
             d["input"] = {"specs": _js(specs), "script": script, "mode": mode, "seed": seed, "kind": kind}
             disagreements.append(d)
         for v in R.viol:
-            if c09 and v["signature"] not in RESTORE_SIGS:
+            if c09 and v["signature"] not in PLAN_SIGS[ctx.pid]:
                 continue
             if len(violations) < 3:
                 v = dict(v)
@@ -783,8 +838,11 @@ def run(ctx):
               "setver_tooLow", "setver_queued", "dump_made", "dump_none", "op_load", "op_compact", "mode_file", "mode_user",
               "m1_checked", "m3_checked", "m4_checked", "follower_from_dump", "follower_from_log", "load_after_switch",
               "load_enabled_gt_self", "load_clear_kept", "load_clear_installed", "load_ev_cbOpen", "hook_calls", "m5_checked"] + (["ev_unknownId", "cb_keyError"] if INCLUDE_UNKNOWN_IDS else [])
-    floors.append("load_self_gt_enabled")
-    if c09:
+    floors += ["load_self_gt_enabled", "load_installed"]
+    if ctx.pid == "C01":
+        floors = ["op_load", "dump_made", "load_installed", "follower_from_dump", "load_after_switch", "load_enabled_gt_self",
+                  "m3_checked", "load_clear_installed"]
+    elif c09:
         floors = ["op_load", "op_dump", "dump_made", "mode_file", "mode_user", "mode_mem", "load_clear_installed", "load_clear_kept",
                   "follower_from_dump", "load_after_switch", "load_self_gt_enabled", "load_enabled_gt_self"]
     missed = [f for f in floors if not cov.get(f)]
@@ -810,7 +868,7 @@ def search(ctx, unproved):
             seed = rng.randrange(1 << 30)
             R = _finish_pair(ctx, ns, specs, script, random.Random(seed), "mem", seed)
             for v in R.viol:
-                if ctx.pid == "C09" and v["signature"] not in RESTORE_SIGS:
+                if ctx.pid in PLAN_SIGS and v["signature"] not in PLAN_SIGS[ctx.pid]:
                     continue
                 v = dict(v)
                 v["replay"] = {"specs": _js(specs), "script": script, "mode": "mem", "seed": seed, "kind": "pair"}
